@@ -13,6 +13,8 @@ def get_well_position(labware: Labware, well: str) -> int:
     m = _WELLID_MATCHER.match(well)
     if m is None:
         raise ValueError(f"This is not an alphanumeric well ID: '{well}'.")
+    if not well in labware.indices:
+        raise ValueError(f"'{well}' is not a well of the labware '{labware.name}'.")
     row = m.group(1)
     column = int(m.group(2))
 
